@@ -264,18 +264,26 @@ type svcDiscoveryClient struct {
 	scope string
 
 	subscribed map[string]struct{}
-	subCh      chan string
-	unsubCh    chan string
+	// changes not yet sent on the current stream, oldest first. The queue is not
+	// bounded: Subscribe and Unsubscribe never block (with a bounded channel the
+	// 17th change made while no stream was up blocked holding the lock, and the
+	// reconnect, which needs the lock, never happened).
+	pending []subChange
+	notify  chan struct{}
 
 	newStream svcDiscoveryStreamMaker
+}
+
+type subChange struct {
+	svcName string
+	unsub   bool
 }
 
 func newSvcDiscoveryClient(scope string, streamMaker svcDiscoveryStreamMaker) *svcDiscoveryClient {
 	return &svcDiscoveryClient{
 		scope:      scope,
 		subscribed: make(map[string]struct{}, 16),
-		subCh:      make(chan string, 16),
-		unsubCh:    make(chan string, 16),
+		notify:     make(chan struct{}, 1),
 		newStream:  streamMaker,
 	}
 }
@@ -288,7 +296,7 @@ func (c *svcDiscoveryClient) Subscribe(svcName string) {
 		return
 	}
 	c.subscribed[svcName] = struct{}{}
-	c.subCh <- svcName
+	c.enqueueLocked(subChange{svcName: svcName})
 }
 
 func (c *svcDiscoveryClient) Unsubscribe(svcName string) {
@@ -299,7 +307,31 @@ func (c *svcDiscoveryClient) Unsubscribe(svcName string) {
 		return
 	}
 	delete(c.subscribed, svcName)
-	c.unsubCh <- svcName
+	c.enqueueLocked(subChange{svcName: svcName, unsub: true})
+}
+
+func (c *svcDiscoveryClient) enqueueLocked(ch subChange) {
+	c.pending = append(c.pending, ch)
+	select {
+	case c.notify <- struct{}{}:
+	default:
+	}
+}
+
+// takePending returns the queued changes as the two lists of one request.
+func (c *svcDiscoveryClient) takePending() (subscribed, unsubscribed []string) {
+	c.Lock()
+	pending := c.pending
+	c.pending = nil
+	c.Unlock()
+	for _, ch := range pending {
+		if ch.unsub {
+			unsubscribed = append(unsubscribed, ch.svcName)
+		} else {
+			subscribed = append(subscribed, ch.svcName)
+		}
+	}
+	return
 }
 
 func (c *svcDiscoveryClient) Run(ctx context.Context) {
@@ -350,16 +382,15 @@ func (c *svcDiscoveryClient) run(ctx context.Context) {
 }
 
 func (c *svcDiscoveryClient) resubscribe(stream svcDiscoveryStream) error {
-	c.RLock()
+	c.Lock()
 	// load all subscribed services.
 	svcNames := make([]string, 0, len(c.subscribed))
 	for svcName := range c.subscribed {
 		svcNames = append(svcNames, svcName)
 	}
-	// clean sub/unsub channel
-	c.cleanSubChLocked()
-	c.cleanUnsubChLocked()
-	c.RUnlock()
+	// the whole set is sent: the queued changes are part of it.
+	c.pending = nil
+	c.Unlock()
 
 	// skip if no subscribed services.
 	if len(svcNames) == 0 {
@@ -367,26 +398,6 @@ func (c *svcDiscoveryClient) resubscribe(stream svcDiscoveryStream) error {
 	}
 
 	return stream.Send(svcNames, nil)
-}
-
-func (c *svcDiscoveryClient) cleanSubChLocked() {
-	for {
-		select {
-		case <-c.subCh:
-		default:
-			return
-		}
-	}
-}
-
-func (c *svcDiscoveryClient) cleanUnsubChLocked() {
-	for {
-		select {
-		case <-c.unsubCh:
-		default:
-			return
-		}
-	}
 }
 
 func (c *svcDiscoveryClient) loopRecv(stream svcDiscoveryStream) {
@@ -400,31 +411,17 @@ func (c *svcDiscoveryClient) loopRecv(stream svcDiscoveryStream) {
 
 func (c *svcDiscoveryClient) loopSend(stream svcDiscoveryStream, stop <-chan struct{}) {
 	for {
-		var subscribed, unsubscribed []string
 		select {
-		case svcName := <-c.subCh:
-			subscribed = append(subscribed, svcName)
-		case svcName := <-c.unsubCh:
-			unsubscribed = append(unsubscribed, svcName)
+		case <-c.notify:
 		case <-stop:
 			return
 		}
 
-		// batch
-		for {
-			select {
-			case svcName := <-c.subCh:
-				subscribed = append(subscribed, svcName)
-			case svcName := <-c.unsubCh:
-				unsubscribed = append(unsubscribed, svcName)
-			case <-stop:
-				return
-			default:
-				goto SEND
-			}
+		// batch: everything queued so far goes into one request.
+		subscribed, unsubscribed := c.takePending()
+		if len(subscribed) == 0 && len(unsubscribed) == 0 {
+			continue
 		}
-
-	SEND:
 		err := stream.Send(subscribed, unsubscribed)
 		if err != nil {
 			logger.Warnf("Send to service %s discovery stream failed: %v", c.scope, err)
